@@ -15,9 +15,13 @@ def exercise(ctx):
     except Exception as e:
         ctx.violation("library-package", f"libraryPackage {md.get('libraryPackage')!r} is not importable: {e}")
         return
+    from .base import module_of_file
+    home = {s["name"]: importlib.import_module(module_of_file(ctx, f)) for f, s in ctx.services()}
     for sname, svc in md.get("services", {}).items():
         for kind, cl in svc.get("clients", {}).items():
-            cls = getattr(pkg, cl.get("libraryClient", ""), None)
+            # a service of a proto sub-package has its clients in the library's sub-package of that name (the metadata file
+            # has one libraryPackage; where in it the class lives is not part of the statement)
+            cls = getattr(pkg, cl.get("libraryClient", ""), None) or getattr(home.get(sname), cl.get("libraryClient", ""), None)
             if cls is None or not isinstance(cls, type):
                 ctx.violation("client-class", f"service {sname} client kind {kind}: {cl.get('libraryClient')!r} is not a class of {pkg.__name__}")
                 continue
